@@ -22,6 +22,7 @@ use crate::{
     intermediate::{
         constraints::*,
         information_object::{ClassLink, ToplevelInformationDefinition},
+        parameterization::ParameterGovernor,
         types::*,
         *,
     },
@@ -130,27 +131,60 @@ impl Validator {
                     kind: LinkerErrorType::MissingDependency,
                 }) {
                     Ok(mut tld) => {
-                        // Within a parameterized type, its dummy references hide the
-                        // definitions of the module that are spelled the same
-                        let hidden: Vec<&String> = match &tld {
+                        // Within a parameterized type, its dummy references hide whatever
+                        // else is spelled the same (definitions of the module, named numbers
+                        // and enumerals of other types): while the template itself is linked
+                        // each of them stands for itself
+                        let dummies: Vec<(String, ToplevelDefinition)> = match &tld {
                             ToplevelDefinition::Type(ToplevelTypeDefinition {
                                 parameterization: Some(p),
                                 ..
                             }) => p
                                 .parameters
                                 .iter()
-                                .map(|a| &a.dummy_reference)
-                                .filter(|d| self.tlds.contains_key(*d))
+                                .filter_map(|a| {
+                                    let name = a.dummy_reference.as_str();
+                                    match &a.param_governor {
+                                        ParameterGovernor::TypeOrClass(governor) => {
+                                            Some(ToplevelDefinition::Value(
+                                                (
+                                                    name,
+                                                    ASN1Value::ElsewhereDeclaredValue {
+                                                        module: None,
+                                                        parent: None,
+                                                        identifier: name.to_owned(),
+                                                    },
+                                                    governor.clone(),
+                                                )
+                                                    .into(),
+                                            ))
+                                        }
+                                        ParameterGovernor::None => Some(ToplevelDefinition::Type(
+                                            (
+                                                name,
+                                                ASN1Type::ElsewhereDeclaredType(
+                                                    DeclarationElsewhere {
+                                                        module: None,
+                                                        parent: None,
+                                                        identifier: name.to_owned(),
+                                                        constraints: vec![],
+                                                    },
+                                                ),
+                                            )
+                                                .into(),
+                                        )),
+                                        ParameterGovernor::Class(_) => None,
+                                    }
+                                    .map(|placeholder| (name.to_owned(), placeholder))
+                                })
                                 .collect(),
                             _ => vec![],
                         };
-                        let linked = if hidden.is_empty() {
+                        let linked = if dummies.is_empty() {
                             tld.link_constraint_reference(&self.tlds)
                         } else {
                             let mut scope = self.tlds.clone();
-                            hidden.into_iter().for_each(|d| {
-                                scope.remove(d);
-                            });
+                            scope.extend(dummies);
                             tld.link_constraint_reference(&scope)
                         };
                         if let Err(mut e) = linked {
